@@ -1,21 +1,33 @@
 #!/bin/bash
 # check.sh <Cxx> quick|thorough : rebuild from /repo's working tree, explore, write evidence.
+# A property may be decided by several binaries (flavours.json value "a+b"): they run one after the other, the later
+# ones merge their coverage into the evidence file of the first; the exit code is the worst one.
 cd /verif
 . scripts/env.sh
 id="$1"; tier="${2:-quick}"
 export VERIF_TIER="$tier"
-flavour=$(python3 -c "
+flavours=$(python3 -c "
 import json,sys
 m=json.load(open('/verif/scripts/flavours.json'))
-print(m.get('$id','vmc'))")
-lock=/verif/.cache/build-$flavour.lock
-(
-  flock 9
-  scripts/build.sh "$flavour" >/verif/.cache/build-$flavour.log 2>&1
-) 9>"$lock"
-rc=$?
-if [ $rc -ne 0 ]; then
-  echo "BUILD FAILED for $flavour (see /verif/.cache/build-$flavour.log)"; tail -30 /verif/.cache/build-$flavour.log
-  exit 2
-fi
-exec bin/$flavour check "$id"
+print(m.get('$id','vmc').replace('+',' '))")
+worst=0; first=1
+for flavour in $flavours; do
+  lock=/verif/.cache/build-$flavour.lock
+  (
+    flock 9
+    scripts/build.sh "$flavour" >/verif/.cache/build-$flavour.log 2>&1
+  ) 9>"$lock"
+  rc=$?
+  if [ $rc -ne 0 ]; then
+    echo "BUILD FAILED for $flavour (see /verif/.cache/build-$flavour.log)"; tail -30 /verif/.cache/build-$flavour.log
+    exit 2
+  fi
+  if [ $first -eq 1 ]; then
+    bin/$flavour check "$id"; rc=$?
+  else
+    VERIF_EVIDENCE_MERGE="$flavour" bin/$flavour check "$id"; rc=$?
+  fi
+  first=0
+  [ $rc -gt $worst ] && worst=$rc
+done
+exit $worst
